@@ -122,7 +122,66 @@ def _perturbed_meta(meta, perturb):
                 if d["raw_idx"] == p[1]:
                     el = d["elements"][p[2]]
                     el["alias"] = p[3] if p[0] == "alias" else el["id"]
+        elif p[0] == "mark_missing":
+            for d in m["dims"]:
+                if d["raw_idx"] == p[1] and p[2] < len(d["elements"]):
+                    d["elements"][p[2]]["missing"] = True
+        elif p[0] == "cat_dates":
+            for k, d in enumerate(m["dims"]):
+                if d["raw_idx"] == p[1]:
+                    d["type"] = "CAT_DATE"
+                    m["dimension_types"][k] = "CAT_DATE"
+        elif p[0] == "view_insertions":
+            for d in m["dims"]:
+                if d["raw_idx"] == p[1]:
+                    d["view_insertion_ids"] = [i.get("id") for i in p[2]]
+                    d["n_view_insertions"] = len(p[2])
     return m
+
+
+def _merged_meta(m0, m1):
+    m = json.loads(json.dumps(m0))
+    for k in range(1, min(len(m["dims"]), len(m1["dims"])) + 1):
+        d0, d1 = m["dims"][-k], m1["dims"][-k]
+        have = {json.dumps(e.get("id")) for e in d0["elements"]}
+        d0["elements"] = d0["elements"] + [e for e in d1["elements"] if json.dumps(e.get("id")) not in have]
+    return m
+
+
+def _structural_perturbations(rnd, meta):
+    """Input-space widening that keeps the response valid (DESIGN 7): other valid/missing
+    split, numeric values, a categorical made a date series, variable-level subtotals
+    (with and without ids), filter statistics."""
+    out = []
+    cats = [d for d in meta["dims"] if d["type"] in ("CAT",) and d["raw_idx"] >= 0 and len(d["elements"]) >= 2]
+    if cats and rnd.random() < 0.5:
+        d = rnd.choice(cats)
+        valid_idx = [i for i, e in enumerate(d["elements"]) if not e["missing"]]
+        kind = rnd.choice(["mark_missing", "numeric_values", "cat_dates", "cat_dates", "view_insertions", "view_insertions"])
+        if kind == "mark_missing" and len(valid_idx) >= 3:
+            out.append(["mark_missing", d["raw_idx"], rnd.choice(valid_idx)])
+        elif kind == "numeric_values":
+            out.append(["numeric_values", d["raw_idx"],
+                        [rnd.choice([None, 1, 2, 3, 5, -1, 2.5]) for _ in d["elements"]]])
+        elif kind == "cat_dates" and d is meta["dims"][-1]:
+            out.append(["cat_dates", d["raw_idx"]])
+        elif kind == "view_insertions" and len(valid_idx) >= 2:
+            ids = [d["elements"][i]["id"] for i in valid_idx]
+            ins = []
+            for k in range(rnd.choice([1, 2, 3])):
+                one = {"function": "subtotal", "name": "View sub %d" % (k + 1),
+                       "anchor": rnd.choice(["top", "bottom", rnd.choice(ids)]),
+                       "args": rnd.sample(ids, min(len(ids), rnd.choice([1, 2, 3])))}
+                if rnd.random() < 0.35:
+                    one["kwargs"] = {"positive": one.pop("args"), "negative": rnd.sample(ids, 1)}
+                if rnd.random() < 0.5:
+                    one["id"] = k + 1
+                ins.append(one)
+            out.append(["view_insertions", d["raw_idx"], ins])
+    if rnd.random() < 0.15:
+        f = rnd.choice([0, 50, 100])
+        out.append(["filter_stats", f, rnd.choice([0, 100, 200])])
+    return out
 
 
 def _response_arg(rnd, knobs, name, allow_perturb=True):
@@ -132,6 +191,10 @@ def _response_arg(rnd, knobs, name, allow_perturb=True):
         p = _perturbations(rnd, ix[name])
         if p:
             ad["perturb"] = p
+    if allow_perturb and rnd.random() < knobs.get("struct_rate", 0.0):
+        p = _structural_perturbations(rnd, _perturbed_meta(ix[name], ad.get("perturb")))
+        if p:
+            ad["perturb"] = list(ad.get("perturb", [])) + p
     return ad
 
 
@@ -177,6 +240,7 @@ def generate(run_seed, tier_cfg):
         "repeat_rate": rnd.choice([0.05, 0.15, 0.3]),
         "call_rate": rnd.choice([0.03, 0.08, 0.15]),
         "expand_rate": rnd.choice([0.1, 0.25]),
+        "struct_rate": rnd.choice([0.0, 0.25, 0.5]),
     }
     # sweep runs read (nearly) every property of one or two partitions in a random
     # order: every ordered pair of reads on one object is covered in one of its two orders
@@ -243,7 +307,12 @@ def generate(run_seed, tier_cfg):
         other = rnd.choice(pool)
         args["r0"] = _response_arg(rnd, knobs, name)
         args["r1"] = _response_arg(rnd, knobs, other)
-        args["t0"] = _transforms_arg(rnd, knobs, _meta_for(args["r0"]))
+        meta = _meta_for(args["r0"])
+        if rnd.random() < 0.5:
+            # "one analysis for every table": references drawn from both cubes' elements, so
+            # that some are valid for one cube only
+            meta = _merged_meta(meta, _meta_for(args["r1"]))
+        args["t0"] = _transforms_arg(rnd, knobs, meta)
         specs["s0"] = _cube_spec(rnd, "r0", "t0", scal)
         specs["s1"] = _cube_spec(rnd, "r1", "t0", scal)
     elif topo == "T5num":
